@@ -54,6 +54,9 @@ def hitsound_copy(osu_src: OsuMap, osu_tgt: OsuMap) -> OsuMap:
     # We'll just get the target data then export it again
     df = pd.concat([i.df for i in osu_tgt.notes], sort=False)
     df = df.sort_values("offset").reset_index(drop=True)
+    # reset_samples below acts on the copy, this frame is what is exported
+    df[["hitsound_set", "sample_set", "addition_set", "custom_set"]] = 0
+    df["hitsound_file"] = ""
     df_to_offsets = df["offset"]
 
     osu_tgt = deepcopy(osu_tgt)
